@@ -1,7 +1,5 @@
-(* C09 — computed witnesses on the model of the REPAIRED code (1f61a03): the one place where the
-   full-strength statement still fails (restart window while the revocation is recorded only as a
-   StateRevoked marker; replayed on the Go code by the driver, kind window-marker-only), and the
-   scenarios of the six repaired defects, which now behave as the property demands. *)
+(* C09 — computed examples on the model of the REPAIRED code (1f61a03, 4ce6577): the scenarios of the
+   seven repaired defects now behave as the property demands. *)
 From Sdns Require Import Common.Base Gen.C09 C09.Model.
 Open Scope N_scope.
 
@@ -25,26 +23,20 @@ Definition s0 (tag : key -> N) : sys :=
 Definition rev_fetch (tag : key -> N) : fetch := FResp [kA'; kB] [sg tag kA'; sg tag kB].
 Definition plain_fetch (tag : key -> N) : fetch := FResp [kB] [sg tag kB].
 
-(* RESIDUAL — restart window with a marker-only record: the tombstone write failed, the state file
-   landed with the StateRevoked marker (one record persisted).  NewResolver filters the configured
-   keys through the tombstone file only, so after a restart A is live until the first AutoTA run. *)
-Lemma revocation_permanent_refuted_marker_only_window :
-  exists tag s now fe fl cfg' key,
-    In 1 (r_revoked (run_of tag s now fe fl)) /\ length (r_writes (run_of tag s now fe fl)) = 1%nat /\
-    let s' := exec tag (step tag s (ERun now fe fl)) [ERestart cfg' TROk] in
-    In key (s_live s') /\ k_mat key = 1 /\
-    (* and the next run removes it again: the record itself is never lost *)
-    ~ In key (s_live (step tag s' (ERun (now + 1)%Z FErr no_faults))).
-Proof.
-  exists tag_inj, (s0 tag_inj), 10%Z, (rev_fetch tag_inj), (mk_faults false TROk true false), [kA; kB], kA.
-  vm_compute. repeat split; auto. intros [H|[]]. discriminate.
-Qed.
+(* the former residual (repaired by 4ce6577): the tombstone write failed, the state file landed with
+   the StateRevoked marker; NewResolver now honours the marker, A is not live after the restart *)
+Example marker_only_window_closed :
+  let s1 := step tag_inj (s0 tag_inj) (ERun 10%Z (rev_fetch tag_inj) (mk_faults false TROk true false)) in
+  d_tomb (s_disk s1) = Some [] /\
+  s_live (step tag_inj s1 (ERestart [kA; kB] TROk false)) = [kB] /\
+  s_live (step tag_inj s1 (ERestart [kA; kB] TROk true)) = [].
+Proof. vm_compute. repeat split; reflexivity. Qed.
 
 (* F2 repaired: both files landed; a restart with the stale configuration does not trust A *)
 Example restart_window_closed :
   let s1 := step tag_inj (s0 tag_inj) (ERun 10%Z (rev_fetch tag_inj) no_faults) in
-  s_live (step tag_inj s1 (ERestart [kA; kB] TROk)) = [kB] /\
-  s_live (step tag_inj s1 (ERestart [kA; kB] TRUnreadable)) = [].
+  s_live (step tag_inj s1 (ERestart [kA; kB] TROk false)) = [kB] /\
+  s_live (step tag_inj s1 (ERestart [kA; kB] TRUnreadable false)) = [].
 Proof. vm_compute. auto. Qed.
 
 (* unreadable tombstones / unreadable state file now fail closed and lose nothing *)
@@ -77,7 +69,7 @@ Proof. vm_compute. auto. Qed.
 
 (* configured REVOKE-flagged form: the Valid state entry leaves the trust set in the same run *)
 Example configured_revoked_form_applies_at_once :
-  let s1 := step tag_inj (s0 tag_inj) (ERestart [kA'; kB] TROk) in
+  let s1 := step tag_inj (s0 tag_inj) (ERestart [kA'; kB] TROk false) in
   s_live s1 = [kB] /\ s_live (step tag_inj s1 (ERun 10%Z FErr no_faults)) = [kB].
 Proof. vm_compute. auto. Qed.
 
